@@ -174,7 +174,7 @@ HARNESSES = [
         ["hed.models.hed_string.HedString.from_hed_strings", "hed.models.hed_string.HedString._get_org_span",
          "hed.models.hed_string.HedString._get_org_span_from_strings", "hed.models.hed_group.HedGroup.check_if_in_original"],
         quick=R.tier(cells=_rs_cells(2, 2, 2) + _rs_cells(3, 1, 1),
-                     env={"VP_N": 2, "VP_M": 1}, timeout=300,
+                     env={"VP_N": 2, "VP_M": 1}, timeout=600,
                      bound="2 cells of any Unicode text <= 2 characters each, or 3 cells of <= 1 character each"),
         thorough=R.tier(cells=_rs_cells(2, 3, 2) + _rs_cells(3, 1, 1),
                         env={"VP_N": 3, "VP_M": 2}, timeout=1200, path_timeout=60,
